@@ -51,8 +51,11 @@ class B:
     def elem(self, t):
         return self.draw(ELEM[t])
 
-    def operand(self, t, dst):
-        """Value to append/remove: literals only where the emitted template call compiles (int/bool); typed variables otherwise."""
+    def operand(self, t, dst, own=None):
+        """Value to append/remove: literals only where the emitted template call compiles (int/bool); typed variables otherwise;
+        own=(name, n): possibly an element of the list itself (the helper's argument then aliases the buffer it reallocates)."""
+        if own and own[1] >= 1 and self.draw(st.integers(0, 3)) == 0:
+            return f"{own[0]}[{self.draw(st.integers(-own[1], own[1] - 1))}]"
         if t in ("int", "bool"):
             return self.elem(t)
         v = self.nm("v")
@@ -103,7 +106,7 @@ class B:
         op = self.draw(st.sampled_from(["append", "remove_present", "read", "read", "self_assign", "reassign", "alias", "helper_read", "helper_mutate", "empty_range"]))
         d = self.pro
         if op == "append":
-            d.append(f"{name}.append({self.operand(t, d)})"); self.lists[name][1] += 1
+            d.append(f"{name}.append({self.operand(t, d, (name, n))})"); self.lists[name][1] += 1
         elif op == "remove_present" and n >= 2 and t in ("int", "str"):
             d.append(f"{name}.remove({name}[{self.draw(st.integers(0, n - 1))}])"); self.lists[name][1] -= 1
         elif op == "self_assign":
@@ -143,7 +146,7 @@ class B:
             return
         name = self.draw(st.sampled_from(sorted(cands)))
         t, n = self.lists[name]
-        op = self.draw(st.sampled_from(["append_remove", "append_remove", "read", "grow", "loop_alloc", "reassign_in_loop", "str_build", "str_const"]))
+        op = self.draw(st.sampled_from(["append_remove", "append_remove", "rotate", "read", "grow", "loop_alloc", "reassign_in_loop", "str_build", "str_const"]))
         d = self.loop
         if op == "append_remove" and t in ("int", "str"):
             if t == "int":
@@ -153,8 +156,12 @@ class B:
                 self.pro.append(f"{v} = 'zz9'")
             d += [f"{name}.append({v})", f"mon.write({name}[-1])", f"{name}.remove({v})"]
             self.mut_in_loop = True
+        elif op == "rotate" and t in ("int", "str"):
+            # [a, b, c] -> append own first element -> remove its first occurrence: constant length, the buffer is reallocated twice
+            d += [f"{name}.append({name}[0])", f"mon.write({name}[-1])", f"{name}.remove({name}[-1])"]
+            self.mut_in_loop = True
         elif op == "grow":
-            d.append(f"{name}.append({self.operand(t, self.pro)})")
+            d.append(f"{name}.append({self.operand(t, self.pro, (name, n))})")
             d.append(f"mon.write(len({name}))")
             self.mut_in_loop = True
         elif op == "loop_alloc" and "loop_alloc" not in self.off:
